@@ -178,3 +178,15 @@ Definition pw_wfb (pw : pwf) : bool :=
 (* InvCDF of a harness-defined distribution with this cdf and the given Bounds *)
 Definition pw_invcdf (pw : pwf) (bl bh : Q) (k : nat) (y : xreal) : ires :=
   invcdf_x (pw_cdf pw) bl bh go_expand_fuel k y.
+
+(* ---------- discrete distributions given by the exact cdf at their support points ----------
+   (BinomialDist, HypergeometicDist: Step() = 1, cdf = Model/Binom.v, Model/Hyperg.v) *)
+(* [(k, cdf k)] for cnt consecutive support points from k on *)
+Fixpoint disc_table (cdf : Z -> Q) (k : Z) (cnt : nat) : list (Z * Q) :=
+  match cnt with O => [] | S c => (k, Qred (cdf k)) :: disc_table cdf (k + 1)%Z c end.
+(* first support point whose cdf is >= t; the last point (initially dflt) when there is none *)
+Fixpoint disc_quantile (tab : list (Z * Q)) (t : Q) (dflt : Z) : Z :=
+  match tab with
+  | [] => dflt
+  | (k, c) :: r => if Qle_bool t c then k else disc_quantile r t k
+  end.
